@@ -795,7 +795,9 @@ fn encode_compressed_block(c: &CompSpec, eb: &ExecBlock, st: &mut SynthState) ->
                 let min_log = (support.len().next_power_of_two().trailing_zeros() as u8).max(5);
                 let log = req_log.clamp(min_log, max_logs[i].max(min_log)).min(max_logs[i]);
                 let nc = fse::make_ncount(log, &support);
-                table_bytes.extend_from_slice(&fse::write_ncount(&nc));
+                // (one description in four has its zero runs written in several pieces: legal, and
+                // nothing but a hand-made frame ever contains it)
+                table_bytes.extend_from_slice(&fse::write_ncount_with(&nc, if seed % 4 == 3 { seed | 1 } else { 0 }));
                 st.tabs[i] = TableState::from_nc(nc);
             }
             _ => {}
